@@ -31,7 +31,7 @@ def run(tier, seed, selftest=False, replay=None):
         return selftest_run(files[0])
     vals = parallel(validate, files)
     verdict = Verdict(PID)
-    nprobes = nprog = 0
+    nprobes = nprog = nhdr = 0
     sample = None
     for f, v in zip(files, vals):
         progs = {p["id"]: p for p in read_json(f)["progs"]}
@@ -42,21 +42,33 @@ def run(tier, seed, selftest=False, replay=None):
             nprobes += j["probes"]
             p = progs[j["prog"]]
             sample = sample or p
+            nhdr += j["hdrs"]
+            for aspect, name, exp, got in j["hbad"]:
+                verdict.add("%s.%s" % (aspect, p["lang"]), {"id": p["id"], "kind": aspect, "name": name, "expected": exp, "measured": got},
+                            "%s %r in the %s text of %s: expected %s, found %s" % (aspect, name, p["lang"], p["id"], json.dumps(exp)[:300], json.dumps(got)[:300]))
             for kind, name, exp, got in j["bad"]:
                 verdict.add("%s.%s" % (kind, p["lang"]), {"id": p["id"], "kind": kind, "name": name, "expected": exp, "measured": got},
                             "%s %r: expected %d occurrence(s) in the %s text of %s, found %d" % (kind, name, exp, p["lang"], p["id"], got))
     rc = verdict.finish()
     write_evidence(PID, tier, seed, "exploration", {
-        "evaluations": nprobes, "distinct_nontrivial": nprog,
+        "evaluations": nprobes + nhdr, "distinct_nontrivial": nprog, "headers_compared": nhdr,
         "rule": "generated, erased and overwritten programs of 4 languages are translated by the real translators; for every class, function, "
                 "variable/field declaration (typed / untyped), inferable constructor call and string literal of the program TLC computes from the "
                 "walk how often the corresponding header / annotation must occur (HInventory.Expected) and compares with the count of the "
-                "language's textual pattern (harness/scan.py); plus bracket balance; the header of every function (Kotlin, Scala) and class (all languages) must declare each of its type parameters (fun_tparam / class_tparam); the three programs of a seed go through one translator object, as in the driver. evaluations = probes compared, distinct = programs",
+                "language's textual pattern (harness/scan.py); plus bracket balance; the header of every function (Kotlin, Scala) and class (all languages) must declare each of its type parameters (fun_tparam / class_tparam); the three programs of a seed go through one translator object, as in the driver. "
+                "Declaration surface (HSurface): the emitted text is cut into tokens and every class / function / field / variable header is split by bracket matching; "
+                "TLC renders from the abstract program what each header must say in the language's concrete syntax (type syntax incl. projections, arrays, boxing in "
+                "argument position; type parameters with variance and bounds; extends / implements clauses; constructor fields; parameter names, types, varargs; "
+                "declared return / variable / field types iff carried; kind, finality, abstractness, override as the language expresses them) and compares the bags per "
+                "declared name, aspect by aspect; no class or function header beyond the program's. At-least facts: numeric literals, binary operators, parameter names; "
+                "explicit type arguments of generic calls (Kotlin, Scala). evaluations = probes + headers compared, distinct = programs",
         "samples": [{"program": sample["id"], "probes": sample["counts"][:10]}],
         "programs": nprog, "states": sum(v.distinct for v in vals), "checker_cmd": "inv_exec.py ; tlc HInventoryTrace",
     }, time.time() - t0, len(verdict.violations),
         ["the textual patterns (one regular expression per fact kind and language) are trusted code", "facts a language does not express are not judged "
-         "(HInventory.Expresses): function headers and typed-variable counts only for Kotlin and Scala"])
+         "(HInventory.Expresses): function-header and typed-variable *counts* only for Kotlin and Scala", "the lexer and header splitter (harness/surface.py) are trusted code",
+         "Java / Groovy: local functions (printed as lambdas / closures) have no header and are not compared; variables are compared when the program carries a type, as a sub-bag",
+         "explicit type arguments of generic method calls are never printed by the Java and Groovy translators (pre-study F5): not judged"])
     return rc
 
 
@@ -69,4 +81,26 @@ def selftest_run(path):
     bad = [b for j in validate(p2).json for b in j["bad"]]
     ok = any(b[0] == "var_untyped" and b[1] == c[1] for b in bad)
     print("selftest C12: one untyped declaration of %r less in the measured counts -> %s" % (c[1], "flagged" if ok else "NOT flagged"))
-    return 0 if ok else 2
+    # header surface: change one token of a class's type-parameter list, drop a modifier of a function, rename a parameter
+    ok2 = True
+    for what in ("tps", "mods", "params"):
+        q = json.loads(json.dumps(next(x for x in data["progs"] if any(c_["tps"] for c_ in x["surface"]["classes"]) and
+                                       any(f["params"] and f["mods"] for f in x["surface"]["funs"]))))
+        if what == "tps":
+            c_ = next(c_ for c_ in q["surface"]["classes"] if c_["tps"])
+            c_["tps"][0][-1] = c_["tps"][0][-1] + "X"
+            want = ("hdr_class.tps", c_["name"])
+        elif what == "mods":
+            f = next(f for f in q["surface"]["funs"] if f["mods"] and f["params"])
+            f["mods"] = []
+            want = ("hdr_fun.", f["name"])
+        else:
+            f = next(f for f in q["surface"]["funs"] if f["params"])
+            f["params"][0] = ["zzz" if t == f["params"][0][0 if q["lang"] in ("kotlin", "scala") else -1] else t for t in f["params"][0]]
+            want = ("hdr_fun.params", f["name"])
+        p3 = write_json(path + ".corrupt_%s.json" % what, {"progs": [q]})
+        hb = [b for j in validate(p3).json for b in j["hbad"]]
+        hit = any(b[0].startswith(want[0]) and b[1] == want[1] for b in hb)
+        print("selftest C12: corrupted %s of %r in the measured surface -> %s" % (what, want[1], "flagged" if hit else "NOT flagged"))
+        ok2 = ok2 and hit
+    return 0 if ok and ok2 else 2
